@@ -122,7 +122,8 @@ func TestVerifBoundedValidity(t *testing.T) {
 	for _, c := range []struct {
 		dur     string
 		y, m, d int
-	}{{"1y", 1, 0, 0}, {"18m", 0, 18, 0}, {"45d", 0, 0, 45}, {"2y3m4d", 2, 3, 4}, {"10y6m", 10, 6, 0}, {"6m10d", 0, 6, 10}, {"1y10d", 1, 0, 10}} {
+	}{{"1y", 1, 0, 0}, {"18m", 0, 18, 0}, {"45d", 0, 0, 45}, {"2y3m4d", 2, 3, 4}, {"10y6m", 10, 6, 0}, {"6m10d", 0, 6, 10}, {"1y10d", 1, 0, 10},
+		{"010d", 0, 0, 10}, {"08m", 0, 8, 0}, {"02y012m030d", 2, 12, 30}, {"0100d", 0, 0, 100}, {"007d", 0, 0, 7}, {"09y", 9, 0, 0}} { // numbers are decimal, padded or not
 		from := time.Date(2023, 11, 30, 0, 0, 0, 0, time.Local)
 		out, err := CertValidity{From: "2023-11-30", Duration: c.dur}.toTimeStruct()
 		n++
@@ -362,3 +363,72 @@ func TestVerifReplayEmptyQualifiers(t *testing.T) {
 	}
 	fmt.Printf("VERIF-REPLAY: not-reproduced value % x\n", ext.Value)
 }
+
+// TestVerifBoundedV1Names: the two places that turn a configured IPv4 text into four octets (subjectAlternativeName and
+// admission authorities) read every octet as a decimal number 0..255, zero-padded or not, and reject everything else.
+func TestVerifBoundedV1Names(t *testing.T) {
+	n := 0
+	octets := []string{"0", "1", "9", "10", "99", "127", "255", "010", "017", "008", "099", "000", "256", "300", "-1", "0x7f", "0b1", "1e1", "", " 1", "1 "}
+	val := func(o string) (int, bool) {
+		if o == "" || len(o) > 3 {
+			return 0, false
+		}
+		v := 0
+		for _, c := range o {
+			if c < '0' || c > '9' {
+				return 0, false
+			}
+			v = v*10 + int(c-'0')
+		}
+		return v, v <= 255
+	}
+	for _, a := range octets {
+		for _, b := range []string{"0", "010", "255", "x"} {
+			ip := "10." + a + "." + b + ".1"
+			va, oka := val(a)
+			vb, okb := val(b)
+			ok := oka && okb
+			want := []byte{10, byte(va), byte(vb), 1}
+			// subjectAlternativeName
+			n++
+			bd, err := SubjectAltName{Content: []SubjAltNameComponent{{Type: "ip", Name: ip}}}.Builder()
+			if ok != (err == nil) {
+				fmt.Printf("VERIF-BOUNDED: violation subjectAlternativeName ip %q: err=%v, a dotted quad of decimal octets=%v\n", ip, err, ok)
+				return
+			}
+			if ok {
+				ext, err := bd.Compile(nil)
+				if err != nil || len(ext.Value) != 8 || string(ext.Value[4:]) != string(want) || ext.Value[2] != 0x87 {
+					fmt.Printf("VERIF-BOUNDED: violation subjectAlternativeName ip %q encoded as % x, configured octets %v\n", ip, ext.Value, want)
+					return
+				}
+			}
+			// admission authority
+			n++
+			gn, err := GeneralName{Type: "ip", Name: ip}.convert()
+			if ok != (err == nil) {
+				fmt.Printf("VERIF-BOUNDED: violation admission authority ip %q: err=%v, a dotted quad of decimal octets=%v\n", ip, err, ok)
+				return
+			}
+			if ok {
+				if g, isIP := gn.(cert.GeneralNameIP); !isIP || string(g[:]) != string(want) {
+					fmt.Printf("VERIF-BOUNDED: violation admission authority ip %q converted to %v, configured octets %v\n", ip, gn, want)
+					return
+				}
+			}
+		}
+	}
+	for _, ip := range []string{"1.2.3", "1.2.3.4.5", "", "1..2.3"} {
+		n++
+		if _, err := (SubjectAltName{Content: []SubjAltNameComponent{{Type: "ip", Name: ip}}}).Builder(); err == nil {
+			fmt.Printf("VERIF-BOUNDED: violation subjectAlternativeName ip %q accepted\n", ip)
+			return
+		}
+		if _, err := (GeneralName{Type: "ip", Name: ip}).convert(); err == nil {
+			fmt.Printf("VERIF-BOUNDED: violation admission authority ip %q accepted\n", ip)
+			return
+		}
+	}
+	fmt.Printf("VERIF-BOUNDED: ok cases=%d\n", n)
+}
+
